@@ -46,7 +46,7 @@ Print Assumptions C07_start_pos.
 
 Example C07_start_pos_nonvacuous :
   let f := {| f_es := [(1, Leaf 0); (2, Leaf 4); (5, Leaf 6); (7, Leaf 0); (8, Leaf 2)];
-              f_d := 0; f_shape := None; f_active := None; f_isU := false |} in
+              f_d := 0; f_shape := None; f_active := None; f_isU := false; f_owner := None |} in
   legal_sp 0 (f_es f) (below (Some 3)) (Some 2) = true /\
   legal_sp 0 (f_es f) (below None) (Some 1) = true /\
   iter_range f (Some 3) (Some 8) (Some 2) = Some [(5, Leaf 6, 2)] /\
@@ -95,17 +95,40 @@ Theorem C07_ref_post : forall f lo hi step,
 Proof. exact ref_post_full. Qed.
 Print Assumptions C07_ref_post.
 
-(* default iteration follows the format: compressed = occupancy (a legal start_pos is
+(* default iteration follows the format ([fmt_U]: the owner rank's format for an owned fiber,
+   else the fiber's own): compressed = occupancy (a legal start_pos is
    invisible), uncompressed = the active range with defaults filled in (start_pos ignored) *)
 Theorem C07_dispatch : forall f sp,
   ssorted (map fst (f_es f)) = true ->
-  f_isU f || legal_sp (f_d f) (f_es f) (below None) sp = true ->
+  fmt_U f || legal_sp (f_d f) (f_es f) (below None) sp = true ->
   iter_dispatch f sp
-  = if f_isU f
+  = if fmt_U f
     then Some (iter_range_shape f (fst (get_active f)) (snd (get_active f)) 1)
     else iter_range f None None None.
 Proof. exact dispatch_full. Qed.
 Print Assumptions C07_dispatch.
+
+(* ... and the format is the owner rank's when the fiber is owned (root of a tensor), whatever
+   the fiber's own RankAttrs say ([f_isU] does not occur on the right-hand side) *)
+Theorem C07_dispatch_owned : forall f u sp,
+  ssorted (map fst (f_es f)) = true ->
+  f_owner f = Some u ->
+  u || legal_sp (f_d f) (f_es f) (below None) sp = true ->
+  iter_dispatch f sp
+  = if u
+    then Some (iter_range_shape f (fst (get_active f)) (snd (get_active f)) 1)
+    else iter_range f None None None.
+Proof. exact dispatch_owned. Qed.
+Print Assumptions C07_dispatch_owned.
+
+Example C07_dispatch_owned_nonvacuous :
+  let f := {| f_es := [(-2, Leaf 4); (1, Leaf 0); (2, Leaf 6)]; f_d := 0; f_shape := None;
+              f_active := None; f_isU := true; f_owner := Some false |} in
+  iter_dispatch f None = Some [(-2, Leaf 4, 0); (2, Leaf 6, 2)] /\
+  iter_dispatch {| f_es := f_es f; f_d := 0; f_shape := None; f_active := None;
+                   f_isU := false; f_owner := Some true |} (Some 9)
+  = Some [(0, Leaf 0, -1); (1, Leaf 0, 1); (2, Leaf 6, 2)].
+Proof. vm_compute. split; reflexivity. Qed.
 
 (* dense co-iteration: per coordinate of the range the tuple of what each fiber holds there *)
 Theorem C07_coiter : forall d cs fs,
@@ -141,7 +164,7 @@ Print Assumptions C07_project.
    stored elements whose image lies in the interval, each payload under its image, in stored
    order for an increasing map and turned around for a decreasing one *)
 Theorem C07_project_compressed : forall f k b iv,
-  f_isU f = false ->
+  fmt_U f = false ->
   map strip_y (spec_project f k b iv)
   = (if k <? 0 then @rev (Z * tree) else fun l => l)
       (map (fun ct => (k * fst ct + b, snd ct))
@@ -149,6 +172,15 @@ Theorem C07_project_compressed : forall f k b iv,
                    (f_es f))).
 Proof. exact project_compressed. Qed.
 Print Assumptions C07_project_compressed.
+
+(* a window over a projection, project(...).iterRange(lo, hi) — iterRange's loop on the lazy
+   result: exactly the projected elements whose new coordinate lies in [lo, hi) *)
+Theorem C07_project_window : forall f k b iv lo hi,
+  ssorted (map fst (f_es f)) = true -> k <> 0 ->
+  project_window f k b iv lo hi
+  = Some (filter (fun y => in_range lo hi (ycoord y)) (spec_project f k b iv)).
+Proof. exact project_window_spec. Qed.
+Print Assumptions C07_project_window.
 
 (* ... in ascending order of the new coordinates, also for order-reversing maps *)
 Theorem C07_project_sorted : forall f k b iv,
@@ -159,7 +191,7 @@ Print Assumptions C07_project_sorted.
 
 Example C07_project_nonvacuous :
   let f := {| f_es := [(1, Leaf 0); (3, Leaf 3); (5, Leaf 4); (6, Leaf 9)];
-              f_d := 3; f_shape := None; f_active := None; f_isU := false |} in
+              f_d := 3; f_shape := None; f_active := None; f_isU := false; f_owner := None |} in
   wf_op f (OpProject (-2) 13 (Some (2, 12)) None) = true /\
   project f (-2) 13 (Some (2, 12)) None = Some [(3, Leaf 4, 2); (11, Leaf 0, 0)] /\
   wf_op f (OpProject 2 1 (Some (10, 20)) (Some 2)) = true /\
@@ -173,7 +205,7 @@ Theorem C07_prune : forall f P sp,
   match sp with
   | None => true
   | Some q => (0 <=? q) && (q <? zlen (f_es f)) &&
-              (f_isU f || legal_sp (f_d f) (f_es f) (below None) sp)
+              (fmt_U f || legal_sp (f_d f) (f_es f) (below None) sp)
   end = true ->
   prune f P sp = Some (spec_prune f P).
 Proof. exact prune_spec. Qed.
@@ -190,17 +222,43 @@ Theorem C07_lazy_idempotent : forall d cs fs,
 Proof. exact co_ref_second. Qed.
 Print Assumptions C07_lazy_idempotent.
 
-(* FULL STATEMENT (not proved): Fiber.fromLazy(lazy), i.e. [f_out << lazy] with
-   [f_ref <<= f_val] per offered element, run through the populate iterator
-   (iterators.py:1044-1287), leaves a fiber whose content equals the content of the list the
-   lazy fiber yields.  The populate machinery belongs to C05 and is not modelled here; the
-   model summarises fromLazy as "store every offered element" ([from_lazy]), so what is proved
-   is only that this summary has the yielded list's content.  The implementation's fromLazy
-   result is compared with that content by the oracle on every project/prune case. *)
-Theorem C07_fromLazy_partial : forall d ys,
-  content d (Node (from_lazy ys)) = content d (Node (map strip_y ys)).
-Proof. reflexivity. Qed.
-Print Assumptions C07_fromLazy_partial.
+(* lazily produced fibers materialise to equal eager fibers.  Fiber.fromLazy = the populate
+   generator (iterators.py 1052-1290) on a fresh destination with the body [f_ref <<= f_val]
+   (Payload / Fiber.__ilshift__, fiber.py 3016-3065), modelled as it is ([from_lazy]: running
+   position, getPayload start_pos, _create_payload, the removal test, the recursive copy through
+   getPayloadRef).  For every list a lazy fiber may yield — ascending coordinates, non-empty
+   payloads with ascending sub-fibers — the eager fiber stores the same coordinates, each
+   payload a copy of the yielded one without its empty elements, and therefore has exactly the
+   content of the yielded list *)
+Theorem C07_fromLazy : forall d dt ys,
+  ssorted (map ycoord ys) = true ->
+  Forall (fun y => sorted_t (ypay y) = true /\ is_empty d (ypay y) = false) ys ->
+  from_lazy d dt ys = map (fun y => (ycoord y, assign_copy d (ypay y))) ys
+  /\ content d (Node (from_lazy d dt ys)) = content d (Node (map strip_y ys)).
+Proof. exact from_lazy_spec. Qed.
+Print Assumptions C07_fromLazy.
+
+(* ... and what project and prune yield is such a list *)
+Theorem C07_fromLazy_applies : forall f k b iv P,
+  ssorted (map fst (f_es f)) = true -> pay_sorted (f_es f) -> k <> 0 ->
+  (ssorted (map ycoord (spec_project f k b iv)) = true /\
+   Forall (fun y => sorted_t (ypay y) = true /\ is_empty (f_d f) (ypay y) = false)
+          (spec_project f k b iv)) /\
+  (ssorted (map ycoord (spec_prune f P)) = true /\
+   Forall (fun y => sorted_t (ypay y) = true /\ is_empty (f_d f) (ypay y) = false)
+          (spec_prune f P)).
+Proof.
+  intros f k b iv P Hs Hp Hk.
+  exact (conj (conj (spec_project_sorted f k b iv Hs Hk) (spec_project_fit f k b iv Hp))
+              (conj (spec_prune_sorted f P Hs) (spec_prune_fit f P Hp))).
+Qed.
+Print Assumptions C07_fromLazy_applies.
+
+Example C07_fromLazy_nonvacuous :
+  let ys := [(2, Node [(0, Leaf 0); (1, Leaf 5)], 0); (4, Node [(3, Leaf 7)], 2)] in
+  from_lazy 0 (Node []) ys = [(2, Node [(1, Leaf 5)]); (4, Node [(3, Leaf 7)])] /\
+  from_lazy 3 (Leaf 3) [(1, Leaf 0, 0); (6, Leaf 4, 1)] = [(1, Leaf 0); (6, Leaf 4)].
+Proof. vm_compute. split; reflexivity. Qed.
 
 (* the faithful model's observation meets the property oracle for every well-formed case *)
 Theorem C07_model_meets_spec : forall c,
@@ -212,12 +270,13 @@ Print Assumptions C07_model_meets_spec.
 Example C07_nonvacuous :
   let c := {| k_fiber := {| f_es := [(1, Leaf 0); (2, Leaf 4); (5, Leaf 6); (7, Leaf 0)];
                             f_d := 0; f_shape := Some 9; f_active := Some (2, 8);
-                            f_isU := false |};
+                            f_isU := false; f_owner := None |};
               k_others := [[(0, Leaf 1); (5, Leaf 2)]];
               k_ops := [OpOcc (Some 1); OpRange (Some 3) (Some 7) (Some 2); OpActive (Some 1);
                         OpShape true; OpActiveShape false; OpRangeShape (-1) 9 3 true;
                         OpIter None; OpCoShape false; OpCoRangeShape 0 8 2 true;
                         OpProject (-1) 9 (Some (3, 8)) None; OpProject 2 0 (Some (5, 20)) (Some 2);
-                        OpPrune {| p_a := 1; p_b := 0; p_e := 0; p_m := 2; p_th := 1 |} (Some 1)] |} in
+                        OpPrune {| p_a := 1; p_b := 0; p_e := 0; p_m := 2; p_th := 1 |} (Some 1);
+                        OpWindow 1 (-3) None (Some 0) (Some 4)] |} in
   c07_wf c = true /\ holds c07_checker c (model c07_checker c) = true.
 Proof. vm_compute. split; reflexivity. Qed.
